@@ -11,7 +11,7 @@ PROP = dict(
              "past bid_end and end (restart without bids, close with bids), closes that fail (collector without the lot, tokenmint supply too small); "
              "limit cases (2 of 8, plus 8 corpus cases that always run first: the witnesses of the repaired defects C11-F1 amount, C11-F1 denom, C11-F2; "
              "the thorough-tier history in which a bid is cut down to the left-over collateral below the penalty; a record above the debt of an under-collateralised "
-             "auction with a sufficient and with an insufficient app reserve; the cut-down history with an insufficient reserve next to another depositor; two records below the debt in one closure; a record above the debt followed by a second record): "
+             "auction with a sufficient and with an insufficient app reserve (C10-F5, repaired: charged what was bid); the cut-down history with an insufficient reserve next to another depositor; two records below the debt in one closure and a record above the debt followed by a second record (C10-F6, repaired)): "
              "2-5 depositors, 3 debt denoms / markets, closing and withdrawal fee in {0, 1e-6, 0.005, 0.01, 0.1, 1}, 8-44 ops: deposit, cancel "
              "(repeated, foreign), withdraw with amount in {own, own+1, own-1, 2*own+900000, 0, 1, 2900000, own/2} and 18% foreign denoms held by the module; "
              "in 55% of the limit cases 1-2 Dutch auctions of an external initiator (debt 0.5-3 M, penalty in {0, 5, 120000}, collateral 0.5x-10x, app reserve none / too small for the shortfall / big) "
@@ -20,9 +20,9 @@ PROP = dict(
              "non-trivial = english: at least one accepted bid over a standing bid (a refund happened); limit: at least one accepted deposit and one accepted "
              "withdraw/cancel; distinct by digest of (variant, op sequence)",
         modelled=["bank keeper as a function ledger (send/mint/burn of one coin)", "tokenmint Burn/MintNewTokensForApp success is an input (tm_ok) recomputed by the harness from the tokenmint store",
-                  "the automatic fill (LimitOrderBid) is modelled per auction closure (the loop over the listed records against the auction debt read before the loop, "
-                  "the early return of the equal-amount branch, all-or-nothing); which closures run, their listing, the auction debt and whether the closure was committed are read "
-                  "off the implementation (a throw-away AuctionIterator run on a cache context, the auction afterwards); the Dutch settlement (PlaceDutchAuctionBid: collateral "
+                  "the automatic fill (LimitOrderBid, after fixes/C10-F6 and fixes/C10-F5) is modelled per auction closure on its book side (every limit bid the closure bid with is charged the amount "
+                  "PlaceDutchAuctionBid actually bid for it, never more than it holds, deleted when used up; all-or-nothing); which closures run, the limit bids they bid with and the amounts bid are read "
+                  "off the implementation (a throw-away AuctionIterator run on a cache context; the user bids the block created); the Dutch settlement (PlaceDutchAuctionBid: collateral "
                   "pay-out, burn, fees, reserve) is an environment input: only its net effect on the module's free debt-denom coins is replayed (signed: the app reserve "
                   "pays into the module when the collateral runs short)",
                   "limit-bid custody is measured on the module balance minus the proceeds that running Dutch auctions keep in the module (TargetDebt - outstanding debt) minus the penalties "
